@@ -1,6 +1,7 @@
 package main
 
 import (
+	"bytes"
 	"fmt"
 	"sort"
 	"strings"
@@ -254,6 +255,49 @@ func runC03(c *Ctx) {
 						}
 						doList(deep, pf, d, false, "c03:list-deep:"+fsClass(inst, pf, d))
 						doList(deep, pf, d, true, "c03:list-deep:"+fsClass(inst, pf, d))
+					}
+				}
+				// copies: the destination is listed under its own key (once), the source stays listed
+				// under its own, and a source deleted afterwards is gone from every listing
+				cp := func(sk, dk string) {
+					l, o := r.Copy(bucket, sk, bucket, dk, nil)
+					before := c.NMism
+					r.judgeProj(l, o, "c03:history:copy", dropVid, specProjC02)
+					if c.NMism == before {
+						cur[dk] = true
+					} else {
+						ok = false
+					}
+				}
+				cp("a/d", "archive/a-d")
+				cp("top", "a/b/copied")
+				cp("a/b/c", "a/b/c")
+				if ok {
+					l, o := r.Del(bucket, "top")
+					r.judgeProj(l, o, "c03:history:delete", dropVid, specProjC02)
+					delete(cur, "top")
+					after := []string{"a/b/c", "a/b/copied", "a/d", "a/e/f/g", "archive/a-d", "x/y/z/w", "x/y2"}
+					for _, pf := range []string{"", "a", "a/", "a/b/", "archive/", "arch", "t", "top"} {
+						for _, d := range []string{"", "/"} {
+							doList(after, pf, d, false, "c03:list-after-copy:"+fsClass(inst, pf, d))
+						}
+					}
+					if strings.HasSuffix(kind, "-dir") {
+						// an upload the file system refuses (a path segment beyond NAME_MAX) leaves nothing
+						// behind: neither the key nor the directories made for it
+						long := "refused/sub/" + strings.Repeat("x", 300)
+						resp := inst.Do(impl.Req{Method: "PUT", Path: "/" + bucket + "/" + long, Body: bytes.NewReader([]byte("never stored"))})
+						if resp.Status == 200 {
+							c.hist("c03:long-segment-accepted")
+							inst.Do(impl.Req{Method: "DELETE", Path: "/" + bucket + "/" + long})
+						} else {
+							c.hist("c03:long-segment-refused")
+						}
+						for _, pf := range []string{"", "r", "refused/", "refused/sub/"} {
+							for _, d := range []string{"", "/"} {
+								doList(after, pf, d, false, "c03:list-after-refused-upload")
+							}
+						}
 					}
 				}
 			} else {
